@@ -36,8 +36,8 @@ def quiet(f, *a, **k):
 
 
 @st.composite
-def polar_cases(draw):
-    nr = draw(st.integers(5, 18))
+def polar_cases(draw, nrmax=18):
+    nr = draw(st.integers(5, nrmax))
     ri = draw(st.one_of(st.floats(0.02, 0.95), st.sampled_from([0.2, 0.25, 0.5, 0.7520014259644755, 0.1, 0.9])))
     mode = draw(st.sampled_from(["native", "native", "makekl", "x4", "x6"]))
     npp = {"native": 5 * nr, "makekl": int(2 * math.pi * nr), "x4": 4 * nr, "x6": 6 * nr}[mode]
@@ -141,6 +141,7 @@ def cart_body(ctx, p):
 
 
 LAWS = [
+    given_law("polar_xl", polar_cases(26), polar_body, {"quick": 0, "thorough": 6}, shards={"quick": 1, "thorough": 16}),
     given_law("polar", polar_cases(), polar_body, {"quick": 20, "thorough": 200}, shards={"quick": 6, "thorough": 16}),
     given_law("cartesian", cart_cases(), cart_body, {"quick": 16, "thorough": 150}, shards={"quick": 5, "thorough": 16}),
 ]
